@@ -63,9 +63,6 @@ class C15(Prop):
     thorough_budget_s = 900
     exhaustive = {'quick': False, 'thorough': False}
 
-    def deductive(self, tier):
-        return []
-
     # ------------------------------------------------------------------------------------ cases
     def cases(self, tier, seed):
         import numpy as np
